@@ -184,11 +184,13 @@ func (mw *Middleware) processLocationErr(
 	// We've got a bad ECS option.  Log and respond with a FORMERR immediately.
 	optslog.Debug1(ctx, mw.logger, "ecs error", slogutil.KeyError, origErr)
 
+	// Do not return the original error, since the request has been answered,
+	// and the server would otherwise send a SERVFAIL response in addition to
+	// this one.
 	resp := mw.messages.NewRespRCode(req, dns.RcodeFormatError)
-	writeErr := rw.WriteMsg(ctx, req, resp)
-	writeErr = errors.Annotate(writeErr, "writing formerr resp: %w")
+	err = rw.WriteMsg(ctx, req, resp)
 
-	return errors.WithDeferred(origErr, writeErr)
+	return errors.Annotate(err, "writing formerr resp: %w")
 }
 
 // handleDeviceResult processes the device result and indicates whether the
